@@ -44,6 +44,7 @@ KindOf(t) ==
       [] t.k = "bin" -> LET a == KindOf(t.l) b == KindOf(t.r) IN
                         IF a \in {"ill", "nil"} \/ b \in {"ill", "nil"} THEN "ill"
                         ELSE IF t.op \in {"<<", ">>", "&", "|", "xor"} /\ (a = "float" \/ b = "float") THEN "ill"
+                        ELSE IF t.op \in {"<", "<=", ">", ">=", "==", "!="} THEN "bool"
                         ELSE Promote(a, b)
       [] t.k = "one" -> KindOf(t.e)
 IllTyped(t) == KindOf(t) = "ill"
@@ -51,8 +52,10 @@ IllTyped(t) == KindOf(t) = "ill"
 JVal(j) == IF j.kind = "float" THEN VF([cls |-> j.cls, neg |-> j.neg, m |-> NatOfDec(j.m), e |-> j.e])
            ELSE VI(j.kind, IntOfDec(j.dec))
 Same(v, j) == /\ v.kind = j.kind
-              /\ IF v.kind = "float" THEN j.cls = "fin" /\ FCmp(v.f, JVal(j).f) = 0 /\ (v.f.m = <<>> => v.f.neg = JVal(j).f.neg) ELSE ZCmp(v.z, IntOfDec(j.dec)) = 0
-Show(v) == IF v.kind = "float" THEN [kind |-> "float", neg |-> v.f.neg, m |-> DecOfNat(v.f.m), e |-> v.f.e]
+              /\ IF v.kind = "bool" THEN j.dec = (IF v.b THEN "1" ELSE "0")
+                 ELSE IF v.kind = "float" THEN j.cls = "fin" /\ FCmp(v.f, JVal(j).f) = 0 /\ (v.f.m = <<>> => v.f.neg = JVal(j).f.neg) ELSE ZCmp(v.z, IntOfDec(j.dec)) = 0
+Show(v) == IF v.kind = "bool" THEN [kind |-> "bool", dec |-> (IF v.b THEN "1" ELSE "0")]
+           ELSE IF v.kind = "float" THEN [kind |-> "float", neg |-> v.f.neg, m |-> DecOfNat(v.f.m), e |-> v.f.e]
            ELSE [kind |-> v.kind, dec |-> DecOfInt(v.z)]
 
 (* expectation for one scalar expression and its two observations *)
@@ -91,7 +94,10 @@ Judge ==
         ELSE (c.folded.status = "reject" /\ c.unfolded.status = "fail")
              \/ PrintT("DISAGREE " \o ToJson([id |-> c.id, expected |-> <<[fail |-> TRUE]>>]))
     ELSE LET r == Ev(c.tree) IN
-         IF ~IllTyped(c.tree) /\ ~r.ok /\ r.oom /\ c.unfolded.status = "ok" THEN
+         IF c.tree.k = "one" /\ c.tree.e.k = "bin" /\ c.tree.e.op \in {"<", "<=", ">", ">=", "==", "!="}
+            /\ c.folded.status = "reject" /\ c.unfolded.status = "reject" THEN
+              PrintT("SKIP " \o ToJson([id |-> c.id]))     \* which kinds may be compared is the type checker's business (C02 / C03): nothing was folded, nothing ran
+         ELSE IF ~IllTyped(c.tree) /\ ~r.ok /\ r.oom /\ c.unfolded.status = "ok" THEN
               (Agree(c) \/ PrintT("DISAGREE " \o ToJson([id |-> c.id, expected |-> <<[agree_with_unfolded |-> TRUE]>>])))
               /\ PrintT("SKIP " \o ToJson([id |-> c.id]))
          ELSE IF IllTyped(c.tree) \/ Skip(r) THEN PrintT("SKIP " \o ToJson([id |-> c.id]))
